@@ -94,7 +94,68 @@ def tie_cases(rng, tier):
     return out
 
 
+W16 = {'BT1', 'BT2', 'BlxRegisterT1', 'CbzT1'}
+
+
+def fb_classes():
+    """the classes for which Props/C18fb<k>.v states a theorem (one per concrete encoding class of the pinned tree)"""
+    import os
+    import re
+    names = []
+    for k in range(8):
+        txt = open(os.path.join(C.COQ, 'theories', 'Props', f'C18fb{k}.v')).read()
+        names += re.findall(r'^Theorem C18_fb_(\w+)', txt, re.M)
+    return sorted(names)
+
+
+def fb_total_cases(rng, tier):
+    """from_bitarray of every concrete encoding class on unrestricted words (UNPREDICTABLE operand combinations included),
+    in and out of IT blocks: the real code and the regenerated model must both end in an operand record, None or UNDEFINED"""
+    import copy
+    import fbgen
+    import optable
+    idx = statelib.load_index(C.GEN)
+    t = idx['tables']
+    icpsr = t['sys_names'].index('cpsr')
+    per = 3 if tier == 'quick' else 60
+    out = []
+    for cls in sorted(t['concrete_classes']):
+        key, info = fbgen.find(idx, cls)
+        if key is None:
+            raise RuntimeError('no from_bitarray for ' + cls)
+        width = optable.TABLE[cls]['_w'] if cls in optable.TABLE else (16 if cls in W16 else 32)
+        is_arm = cls[-2] == 'A'
+        for k in range(per):
+            w = rng.getrandbits(width)
+            if k % 3 == 1:
+                # SP / PC in the register positions: where the UNPREDICTABLE guards live
+                for pos in (0, 8, 12, 16):
+                    if rng.random() < 0.5 and pos + 4 <= width:
+                        w = (w & ~(0xF << pos)) | (rng.choice([13, 15]) << pos)
+            elif k % 3 == 2:
+                w = rng.choice([0, (1 << width) - 1, w & rng.getrandbits(width), w | rng.getrandbits(width)])
+            cfgd = copy.deepcopy(statelib.DEFAULT_CFG)
+            cfgd['arch_version'] = rng.choice([6, 7])
+            st = statelib.reset_state(t, cfg=cfgd, mem=[])
+            it = 0 if is_arm else rng.choice([0, 0, 0x08, 0x18, 0x04, 0xA8])
+            mode = rng.choice([0x10, 0x13, 0x1F])
+            st['sys'][icpsr] = mode | (rng.getrandbits(1) << 29) | (int(not is_arm) << 5) | ((it >> 2) << 10) | ((it & 3) << 25)
+            cfg = statelib.coq_config(cfgd, t)
+            m = statelib.coq_machine(st)
+            ic = fbgen.impl_case(key, cls, st, w)
+            ic['kind'] = 'from_bitarray_kind'
+            out.append({'impl': ic, 'model': f'(fb_kind_of {fbgen.model_term(info, cfg, m, w)})', 'spec': '[0]',
+                        'label': 'total_' + cls, 'nontrivial': True})
+    return out
+
+
+FB_IMPORTS = 'From Gen Require Import enums bits_ops shift regviews records hubm opsyn core exec conc.'
+PROPS_FILES = ['C18'] + [f'C18fb{k}' for k in range(8)]
+
+
 def units():
     return [Unit('step_tie', [], [], ['*'], tie_cases, IMPORTS, SPEC_IMPORTS),
+            Unit('from_bitarray_total', ['C18_fb_' + c for c in fb_classes()],
+                 ['Proofs/OpTac.v'] + [f'Proofs/FbTotal{k}.v' for k in range(8)], [], fb_total_cases, FB_IMPORTS, SPEC_IMPORTS),
             Unit('totality', ['C18_decode_total', 'C18_arm_total', 'C18_thumb32_total'], ['Proofs/DecodeTotal.v'], [], cases,
                  IMPORTS, SPEC_IMPORTS)]
